@@ -7,7 +7,9 @@ WHOLE = ['(', ')', '{', '}', '[', ']', '<', '>', '-LRB-', '-RRB-', '-', '&', '.'
          # escapes / header look-alikes embedded in a longer token
          'f-LRB-x-RRB-', 'x-LCB-', '-RSB-y', 'ID=42', 'userID=a', '#ID=1', 'a[conj]', 'x_none', '{I1}y',
          # the word of the failure placeholder, as an ordinary word
-         'FAILED']
+         'FAILED',
+         # the other PTB bracket escapes as whole words
+         '-LCB-', '-RCB-', '-LSB-', '-RSB-']
 ASCII = list('abcdefghijklmnopqrstuvwxyzABCDEXYZ0123456789')
 CURATED = list('éüñçßøÅΩλжЯאبहกあアｱ日本語漢字中한𝔘😀🙂€£©±×÷¿¡«»‘’“”…–—・。、「」') + ['́', '̈', '゙', '⃣']
 
